@@ -21,9 +21,11 @@ SPEC = {
              "quiescent point; distinct = distinct case."),
     "shards": {"quick": 16, "thorough": 16},
     "min_counts": {"quick": {"evaluations": 300, "wf_evals": 10000, "steps_executed": 3000, "rejections_checked": 100,
-                             "populate_yields": 300}},
+                             "populate_yields": 300, "histories_on_fibers_without_default": 20, "unexpected_exceptions": 200}},
     "assumptions": [
-        "ordered/unique fibers only; deprecated insert/insertOrLookup/setDefault are not in the alphabet",
+        "ordered/unique fibers only; the deprecated insertOrLookup is in the alphabet, the deprecated insert/setDefault are not",
+        "multi-level trees are tensors; free fibers are one level deep (the default of an interior level of a free fiber is not defined), "
+        "some of them built with default=None so that insertions of absent coordinates are rejected half-way through an operation",
         "updateCoords is given injective functions only (uniqueness is the caller's obligation per its docstring)",
         "free (unowned) fibers are used at depth 1 only: without ranks an empty interior fiber has no way to know its payload type",
         "raw sub-fibers are not appended/assigned into tensor-owned interior fibers (that bypasses the tensor's ranks)",
@@ -93,6 +95,8 @@ class _Hooks(history.Hooks):
 def run_case(case, mon):
     h = _Hooks(mon)
     n_ops = len(case["ops"])
+    if case["init"]["default"] is None:
+        mon.count("histories_on_fibers_without_default")
     history.run_history(case["init"], case["ops"], h)
     skipped = mon.counters.get("steps_skipped", 0)
     mon.count("steps_executed", n_ops)
